@@ -691,6 +691,65 @@ def gen_flaw(repo):
     return ''.join(out)
 
 
+def gen_meta(repo):
+    rel = 'clastic/meta.py'
+    tree = parse(repo, rel)
+    gri = find_def(tree.body, 'get_resource_info')
+    needle = marker = None
+    for n in ast.walk(gri):
+        if isinstance(n, ast.Compare) and isinstance(n.ops[0], ast.In) and isinstance(n.left, ast.Constant):
+            needle = n.left.value
+            subject = ast.unparse(n.comparators[0])
+        if isinstance(n, ast.Assign) and isinstance(n.value, ast.Constant) and isinstance(n.value.value, str):
+            marker = n.value.value
+    if needle is None or marker is None:
+        raise TranslatorError('get_resource_info: substring test / marker not found')
+    shape = [ast.unparse(st) for st in gri.body]
+    tr = find_def(tree.body, '_trunc')
+    defaults = [ConstEval(tree).ev(d) for d in tr.args.defaults]
+    out = [HEADER % rel, 'From Coq Require Import List String.\nImport ListNotations.\nLocal Open Scope string_scope.\n\n',
+           'Definition SECRET_NEEDLE : string := %s.\nDefinition SECRET_SUBJECT : string := %s.\nDefinition REDACTED : string := %s.\n'
+           % (coq_str(needle), coq_str(subject), coq_str(marker)),
+           'Definition TRUNC_LEN : nat := %d.\nDefinition TRUNC_TRAILER : string := %s.\n' % (defaults[0], coq_str(defaults[1])),
+           'Definition RESOURCE_INFO_LOOP : list string := %s.\n' % names_list([x.replace('\n', ' ; ') for x in shape])]
+    # who reads .resources / secret_key in meta.py
+    readers = []
+    for fn in ast.walk(tree):
+        if isinstance(fn, ast.FunctionDef):
+            for n in ast.walk(fn):
+                if isinstance(n, ast.Attribute) and n.attr in ('resources', 'secret_key'):
+                    readers.append('%s reads .%s' % (fn.name, n.attr))
+    out.append('Definition RESOURCE_READERS : list string := %s.\n' % names_list(sorted(set(readers))))
+    # SignedCookieMiddleware.__repr__ : which attributes it prints
+    ctree = parse(repo, 'clastic/middleware/cookie.py')
+    rp = find_def(find_class(ctree, 'SignedCookieMiddleware').body, '__repr__')
+    attrs = sorted(set(n.attr for n in ast.walk(rp) if isinstance(n, ast.Attribute) and isinstance(n.value, ast.Name) and n.value.id == 'self'))
+    out.append('Definition COOKIE_REPR_ATTRS : list string := %s.\n' % names_list(attrs))
+    # the per-peripheral exception handling
+    mc = find_class(tree, 'MetaApplication')
+    rows = []
+    for name in ('get_main', 'render_main_page_html'):
+        fn = find_def(mc.body, name)
+        for n in ast.walk(fn):
+            if isinstance(n, ast.Try):
+                rows.append('%s: try %s / %s' % (name, ' ; '.join(ast.unparse(x).split('\n')[0] for x in n.body[:1]),
+                                                 ' | '.join('except %s: %s' % (ast.unparse(h.type) if h.type else '<bare>',
+                                                                               ' ; '.join(ast.unparse(x) for x in h.body)) for h in n.handlers)))
+    out.append('Definition META_TRIES : list string := %s.\n' % names_list(rows))
+    # template references that bypass escaping, per template file
+    import re as _re
+    unesc = []
+    base = os.path.join(repo, 'clastic')
+    for fn in sorted(os.listdir(base)):
+        if fn.startswith('meta_') and fn.endswith('.html'):
+            txt = open(os.path.join(base, fn)).read()
+            for m in _re.finditer(r'\{([A-Za-z_.][A-Za-z0-9_.]*)((?:\|[a-z]+)+)\}', txt):
+                if 's' in m.group(2).split('|'):
+                    unesc.append('%s:%s' % (fn, m.group(1)))
+    out.append('Definition META_UNESCAPED_REFS : list string := %s.\n' % names_list(unesc))
+    return ''.join(out)
+
+
 def gen_normpath(repo):
     from strfun import StrFun
     rel = 'clastic/route.py'
@@ -705,6 +764,7 @@ def gen_normpath(repo):
 
 
 GENERATORS = {
+    'MetaGen.v': gen_meta,
     'FlawGen.v': gen_flaw,
     'ErrorsGen.v': gen_errors,
     'Templates.v': gen_templates,
